@@ -2,6 +2,8 @@
 //! files compared against the Lean model by /verif/bin/check.
 mod c18;
 mod gens;
+mod lang;
+mod vrlrun;
 mod rng;
 mod sink;
 mod wire;
@@ -13,12 +15,13 @@ use std::path::PathBuf;
 /// Run one case (`op` + inputs) on the implementation.
 pub fn exec(op: &str, inputs: &[String]) -> Option<Reply> {
     // first module that recognises the op answers
-    None.or_else(|| c18::exec(op, inputs))
+    None.or_else(|| c18::exec(op, inputs)).or_else(|| lang::exec(op, inputs))
 }
 
 fn generate(prop: &str, sink: &mut sink::Sink, rng: &mut rng::Rng, n: u64) -> bool {
     match prop {
         "C18" => c18::generate(sink, rng, n),
+        "LANG" => lang::generate(sink, rng, n, true),
         _ => return false,
     }
     true
